@@ -162,6 +162,8 @@ func (m *multi) DeserializeCellBlocks(msg proto.Message, b []byte) (uint32, erro
 	mr := msg.(*pb.MultiResponse)
 
 	var nread uint32
+	// answered[i-1] is set once a result for the action with index i has been seen
+	answered := make([]bool, len(m.calls))
 	for _, rar := range mr.GetRegionActionResult() {
 		if e := rar.GetException(); e != nil {
 			if l := len(rar.GetResultOrException()); l != 0 {
@@ -185,7 +187,13 @@ func (m *multi) DeserializeCellBlocks(msg proto.Message, b []byte) (uint32, erro
 			} else if int(i) > len(m.calls) || m.calls[i-1] == nil {
 				// returnResults relies on indices being validated here
 				return 0, fmt.Errorf("no call with index %d in multi request", i)
-			} else if e != nil {
+			} else if answered[i-1] {
+				// a call takes exactly one result: a second one would block the
+				// reader on the call's result channel
+				return 0, fmt.Errorf("more than one result for index %d in multi response", i)
+			}
+			answered[i-1] = true
+			if e != nil {
 				continue
 			}
 
